@@ -773,6 +773,12 @@ func (t *Table) AppendColumn(data []string, width int) error {
 	if len(t.Rows) > 0 {
 		colCount = len(t.Rows[0].Cells)
 	}
+	// 不规则行：第一行的单元格数不是“表格末尾”；在较长的行中，新单元格会被插入到中间并把原有单元格右移
+	for i := range t.Rows {
+		if len(t.Rows[i].Cells) > colCount {
+			return fmt.Errorf("第%d行有%d个单元格，多于第一行的%d个，无法确定表格末尾", i, len(t.Rows[i].Cells), colCount)
+		}
+	}
 	return t.InsertColumn(colCount, data, width)
 }
 
